@@ -84,6 +84,15 @@ type State struct {
 	known    map[string]bool
 	panicking bool
 	pendingForks []*State
+	mapWitness []mapWit
+}
+
+// mapWit: a map entry the path relied on (range step or lookup); used to give
+// maps concrete contents when a counterexample is replayed.
+type mapWit struct {
+	m    string
+	k, v Value
+	cond string
 }
 
 type counter struct{ n int }
@@ -364,10 +373,7 @@ func (st *State) validRef(r string) string {
 	if strings.HasPrefix(r, "(mkref ") || strings.HasPrefix(r, "(sub ") || strings.HasPrefix(r, "(elem ") {
 		return "true"
 	}
-	return and(app("<", app("rid", r), st.allocTop),
-		imp(app("(_ is mkref)", r), eq(app("rid", r), app("rid_", r))),
-		imp(app("(_ is sub)", r), eq(app("rid", r), app("rid", app("sub_p", r)))),
-		imp(app("(_ is elem)", r), eq(app("rid", r), app("rid", app("elem_p", r)))))
+	return and(app("<", app("rid", r), st.allocTop), app(">=", app("rid", r), "0"))
 }
 
 func (st *State) storeMem(addr string, T types.Type, v Value) {
@@ -418,7 +424,9 @@ func (st *State) materialize(v Value) string {
 		return v.Term
 	}
 	if v.Fn != nil {
-		return st.fresh("closure_"+v.Fn.Name(), SRef)
+		c := st.fresh("closure_"+v.Fn.Name(), SRef)
+		st.assume(not(eq(c, nilRef)))
+		return c
 	}
 	if v.Loc != nil {
 		st.res.Errors = append(st.res.Errors, "pointer to local cell escapes: "+v.Loc.Cell.Name)
